@@ -104,6 +104,10 @@ SEED = {
  "seedpatch-C01-h": ("C01", "/verif/seeded/C01-h/patch.diff"),
  # caught by the random stream only before the fixed corpus family of section 16
  "seedpatch-C04-c": ("C04", "/verif/seeded/C04-c/patch.diff"),
+ # round i (task-harness.md section 17)
+ "seedpatch-C05-i": ("C05", "/verif/seeded/C05-i/patch.diff"),
+ "seedpatch-C04-i": ("C04", "/verif/seeded/C04-i/patch.diff"),
+ "seedpatch-C06-i": ("C06", "/verif/seeded/C06-i/patch.diff"),
 }
 ENV = dict(os.environ, GOFLAGS="-mod=mod", GOPROXY="off", GOSUMDB="off", GOTOOLCHAIN="local")
 BASE = "go test -vet=off -count=1 ./bint/... ./eth/... ./jrpc2/... ./shovel/config/... ./shovel/glf/... ./wctx/... ./wos/... ./wslog/..."
